@@ -86,7 +86,7 @@ def hexspec(b):
     return {"hex": bytes(b).hex()}
 
 
-def content_catalogue(rng):
+def content_catalogue(rng, extra_random=0):
     ph = PLACEHOLDER
     cat = [
         ("empty", hexspec(b"")),
@@ -109,6 +109,9 @@ def content_catalogue(rng):
         ("slashes", hexspec(b"\xff\xff\xff\xff")),   # base64 '/////w=='
     ]
     for n in (4, 5, 57, 76, 77, 100, 255, 1000, 3001):
+        cat.append(("random-%d" % n, {"sha": rng.randrange(1 << 30), "n": n}))
+    for _ in range(extra_random):
+        n = rng.choice([rng.randrange(0, 40), rng.randrange(40, 400), rng.randrange(400, 2500)])
         cat.append(("random-%d" % n, {"sha": rng.randrange(1 << 30), "n": n}))
     return cat
 
@@ -155,7 +158,7 @@ def generate(rng, tier):
     quick = tier != "thorough"
     cases = []
     dims = dims_stream(rng)
-    cat = content_catalogue(rng)
+    cat = content_catalogue(rng, 0 if quick else 60)
     cassettes = ["mem", "file", "s3"]
 
     # 1. every catalogue content at limit-1 / limit / limit+1 bytes (explicit float limit worth size+d bytes)
@@ -166,7 +169,7 @@ def generate(rng, tier):
             if n + d < 0:
                 continue
             reps = cassettes if (not quick or n <= 300) else [cassettes[k % 3]]
-            for cas in reps:
+            for cas in (reps if quick else reps * 2):
                 k += 1
                 cases.append(trip_case(rng, next(dims), spec, lim_explicit_bytes(n + d), tag="%s@limit%+d" % (tag, -d),
                                        cassette=cas))
